@@ -73,13 +73,13 @@ def units(tier, seed):
     descs = []
     shapes = shapes_h1() + shapes_h2() + (shapes_h3_cover() if tier == "quick" else shapes_h3_all())
     boxes = ("B_asym", "B_dec", "B_3d")
-    objs = ("sphere_in", "lin_corner", "plateau", "twofunnel")
+    objs = ("sphere_in", "lin_corner", "plateau", "twofunnel", "tiny_offset")
     k = 0
     for eng in shapes:
         for mx in (False, True):
             for j in range(2 if len(eng) < 3 else 1):
                 k += 1
-                d = dict(engines=list(eng), gens=1 + k % 3, box=boxes[k % 3], obj=objs[k % 4], maximize=mx, Mh=4, seed=s,
+                d = dict(engines=list(eng), gens=1 + k % 3, box=boxes[k % 3], obj=objs[k % 5], maximize=mx, Mh=4, seed=s, observing_gsc=bool((k // 2) % 2),
                          sprout={"kind": ("simple", "nbc")[(k // 2) % 2], "L": 2}, levelshift=bool(k % 2), pmut=(1.0, 0.5)[(k // 3) % 2])
                 if k % 5 == 0:
                     d["cutoff"] = [20 + k % 17] + [15 + k % 11] * (len(eng) - 1)
